@@ -43,7 +43,7 @@ LEVEL = "exploration"
 RULE = ("random hierarchies of 2-5 classes (root decorated; children dataclass or hand-written __init__, decorated or not, "
         "arbitrary parent) and histories of 6-16 operations {new (positional|keyword|defaults), symbolic construction, "
         "rule inference into an unrelated decorated family, clear, query let(T), start a result iterator inside or outside a "
-        "block and resume it right before later constructions, evaluate a query whose @predicate returns the (registered) object itself, leave a registry query after its first result (close / drop / break), raise from an evaluation inside a symbolic block (handled inside it / leaving it), define and instantiate a new subclass after its ancestors were queried, evaluate a query whose Predicate construction raises for one binding, switch result caching off and on}; every query result is compared with the "
+        "block and resume it right before later constructions, evaluate a query whose @predicate returns the (registered) object itself, leave a registry query after its first result (close / drop / break) and evaluate the same query object again, raise from an evaluation inside a symbolic block (handled inside it / leaving it), define and instantiate a new subclass after its ancestors were queried, evaluate a query whose Predicate construction raises for one binding, switch result caching off and on}; every query result is compared with the "
         "construction log. Non-trivial: a query is asked for a class that has a subclass instance or an inferred "
         "instance in the log and at least one logged instance that must NOT be returned (other branch / cleared). "
         "distinct by structural hash.")
